@@ -48,7 +48,7 @@ def st_name(draw):
     if k == 0:
         n = ''.join(draw(st.lists(st.sampled_from(PLAIN), min_size=1, max_size=6)))
     elif k == 1:
-        n = draw(st.sampled_from(['name', 'Object id', '9.12341234', '%$ !! 10 20', 'Vehicle type', 'select', 'where', 'a1', 'NR', 'b2', 'x as y', 'count(*)', 'a[1]', 'None', 'if', 'lambda',
+        n = draw(st.sampled_from(['name', 'Object id', '9.12341234', '%$ !! 10 20', 'Vehicle type', 'select', 'where', 'a1', 'NR', 'NR', 'NF', 'b2', 'x as y', 'count(*)', 'a[1]', 'None', 'if', 'lambda',
                                   'col1', '___RBQL_STRING_LITERAL0___', 'it\'s', 'say "hi"', 'back\\slash', 'tab\there', 'two\nlines', 'cr\rhere', '[brackets]', '{x}', 'ends with \\', '\\"', "\\'", '\\n']))
     else:
         n = ''.join(draw(st.lists(st.one_of(st.sampled_from(SPECIAL), st.sampled_from(PLAIN), st.sampled_from(PLAIN), st.sampled_from(NONASCII)), min_size=1, max_size=7)))
@@ -86,7 +86,8 @@ def st_names_case(draw):
     if near and len(set(n.lower() for n in names)) != len(names) and backend == 'sqlite':
         backend = 'list'    # sqlite column names must be distinct case-insensitively
     spell = draw(st.sampled_from(['a["n"]', "a['n']", 'a.n']))
-    if spell == 'a.n' and not qgen.is_attr_name(names[pos]):
+    # a column literally called NR / NF is addressed by a.NR / a.NF like any other (the header binding wins over the record counter)
+    if spell == 'a.n' and not (qgen.is_attr_name(names[pos]) or names[pos] in ('NR', 'NF')):
         spell = draw(st.sampled_from(['a["n"]', "a['n']"]))
     use = draw(st.sampled_from(['select', 'select', 'except', 'update', 'join', 'where']))
     return {'kind': 'names', 'names': names, 'rows': rows, 'pos': pos, 'backend': backend, 'spell': spell, 'use': use}
